@@ -22,6 +22,8 @@ def cases(tier, r):
     yield 'pair', {'seed': r.getrandbits(48), 'depth': r.choice([1, 2, 3]), 'n_edits': r.randint(1, 5),
                    'flavour': r.choice(['edits', 'edits', 'edits', 'unrelated', 'shared', 'deepcopy']),
                    'tuples': r.random() < 0.25}
+  yield 'nan', {'nan': 'flat'}
+  yield 'nan', {'nan': 'nested'}
   for _ in range(150 if tier == 'quick' else 2500):
     # values of a user-registered node type among the arguments, their fields edited in place
     yield 'custom', {'seed': r.getrandbits(48), 'depth': r.choice([2, 3]), 'n_edits': r.randint(1, 4),
@@ -97,6 +99,40 @@ def execute(case):
   if case.get('flat'):
     from harness import flatdiff
     return flatdiff.execute(case, False)
+  if case.get('nan'):
+    # leaves that are not equal to themselves (NaN): the diff to a deep copy is still empty, and an
+    # edit elsewhere is reported as exactly that edit
+    nan = float('nan')
+    f = graphs.node_fn(1, 0)
+    old = fdl.Config(f, p=nan, q=[nan, 1, {'k': float('nan')}, (nan, 2)])
+    if case['nan'] == 'nested':
+      old = fdl.Config(f, p=fdl.Config(f, p=old, q=float('nan')), q=[old])
+    d0 = diffing.build_diff(old, copy.deepcopy(old))
+    new = copy.deepcopy(old)
+    leaf = new
+    while isinstance(leaf.p, fdl.Config):
+      leaf = leaf.p
+    leaf.q[1] = 5
+    d1 = diffing.build_diff(old, new)
+    target = copy.deepcopy(old)
+    obs = {'kinds': [], 'flavour': 'deepcopy', 'build_diff': 'ok', 'old_unchanged_by_build': True,
+           'n_changes': len(d1.changes), 'diff_unchanged': True, 'new_unchanged': True, 'shares_with_new': 0,
+           'in_place': True}
+    try:
+      diffing.apply_diff(d1, target)
+      obs['apply'] = 'ok'
+    except Exception as e:
+      obs['apply'] = f'raised {type(e).__name__}: {e}'[:300]
+      return obs, None
+    t = target
+    while isinstance(t.p, fdl.Config):
+      t = t.p
+    obs['equal_new'] = t.q[1] == 5 and repr(target) == repr(new)
+    obs['deepcopy_empty'] = (len(d0.changes) == 0 and len(d0.new_shared_values) == 0
+                             and len(d1.changes) == 1 and len(d1.new_shared_values) == 0)
+    if not obs['deepcopy_empty']:
+      obs['spurious'] = [repr(c)[:120] for c in (list(d0.changes) + list(d1.changes))][:6]
+    return obs, None
   if case.get('positional'):
     # witness of the recorded finding: positional arguments
     f = targets.make_fn([['a', 'po', False], ['p', 'pk', True]])
@@ -232,7 +268,7 @@ def nontrivial(case, real):
     return ('flat', _json.dumps(case['old'], sort_keys=True), _json.dumps(case['new'], sort_keys=True))
   if real['build_diff'] != 'ok' or real.get('apply') != 'ok' or not real.get('n_changes'):
     return None
-  return (case['seed'],)
+  return (case.get('seed', case.get('nan')),)
 
 
 def run(tier):
